@@ -5,6 +5,7 @@
 #include "vf/core.hpp"
 #include "vf/c06_common.hpp"
 #include <hll.hpp>
+#include <memory>
 
 using namespace datasketches;
 namespace vf {
@@ -18,11 +19,13 @@ unsigned case_timeout_s() { return 1800; }
 //   relation: 0 operand two steps finer than the union (lg_max_k = lg_k; a first operand is down-sampled and its HIP kept),
 //             1 operand lg_k = union lg_max_k = lg_k,  2 operand lg_k coarser than the union (lg_max_k = lg_k + 2)
 // odd trials call get_estimate() between the steps, even trials do not.
-enum Fam { F_HLL4, F_HLL6, F_HLL8, F_HLL_UNION, F_HLL_UNION_MIXED, F_RAW, F_N = F_RAW + 9 };
+// hll_reuse / hll_union_reuse: the sketch (type = trial mod 3) resp. the union object is first filled with 4k unrelated keys,
+// reset(), then used.
+enum Fam { F_HLL4, F_HLL6, F_HLL8, F_HLL_UNION, F_HLL_UNION_MIXED, F_RAW, F_HLL_REUSE = F_RAW + 9, F_HLL_UNION_REUSE, F_N };
 static const char* FAM_NAME[] = {"hll4", "hll6", "hll8", "hll_union", "hll_union_mixed_lgk",
   "hll_union_sketch_raw_finer", "hll_union_sketch_raw_equal", "hll_union_sketch_raw_coarser",
   "hll_union_raw_sketch_finer", "hll_union_raw_sketch_equal", "hll_union_raw_sketch_coarser",
-  "hll_union_sketch_raw_sketch_finer", "hll_union_sketch_raw_sketch_equal", "hll_union_sketch_raw_sketch_coarser"};
+  "hll_union_sketch_raw_sketch_finer", "hll_union_sketch_raw_sketch_equal", "hll_union_sketch_raw_sketch_coarser", "hll_reuse", "hll_union_reuse"};
 static const target_hll_type TYPES[] = {HLL_4, HLL_6, HLL_8};
 
 static std::vector<Cell> build_cells(bool thorough) {
@@ -88,6 +91,26 @@ void run_case(uint64_t idx, Rng& r) {
       hll_sketch s(cell.lg_k, TYPES[cell.fam]);
       for (uint64_t i = 0; i < n; ++i) s.update(key(i));
       tr.push_back(observe(s, n, fam, ctx));
+    } else if (cell.fam == F_HLL_REUSE) {
+      hll_sketch s(cell.lg_k, TYPES[t % 3]);
+      for (uint64_t j = 0; j < (4ULL << cell.lg_k); ++j) s.update(bij(~kb + j));
+      s.reset();
+      for (uint64_t i = 0; i < n; ++i) s.update(key(i));
+      tr.push_back(observe(s, n, fam, ctx));
+    } else if (cell.fam == F_HLL_UNION_REUSE) {
+      static thread_local std::unique_ptr<hll_union> persistent;     // one union object for all trials of the cell
+      if (t == 0) persistent.reset(new hll_union(cell.lg_k));
+      hll_union& u = *persistent;
+      { hll_sketch junk(cell.lg_k, TYPES[t % 3]); for (uint64_t j = 0; j < (4ULL << cell.lg_k); ++j) junk.update(bij(~kb + j)); u.update(junk); u.update(bij(~kb)); }
+      u.reset();
+      const uint64_t a_end = n - n * 2 / 5, b_begin = n * 2 / 5;
+      hll_sketch a(cell.lg_k, TYPES[t % 3]), b(cell.lg_k, TYPES[(t / 3) % 3]);
+      for (uint64_t i = 0; i < a_end; ++i) a.update(key(i));
+      for (uint64_t i = b_begin; i < n; ++i) b.update(key(i));
+      u.update(a); u.update(b);
+      tr.push_back(observe(u, n, fam, ctx));
+      if (u.get_current_mode() == HLL) { count_first_after_merge(tr.back().c); if (u.is_out_of_order_flag()) any_ooo_union = true; }
+      if (t + 1 == cell.trials) persistent.reset();
     } else if (cell.fam >= F_RAW) {
       const int order = (cell.fam - F_RAW) / 3, rel = (cell.fam - F_RAW) % 3;
       const uint8_t op_lg = static_cast<uint8_t>(cell.lg_k + (rel == 0 ? 2 : 0)), max_lg = static_cast<uint8_t>(cell.lg_k + (rel == 2 ? 2 : 0));
